@@ -535,9 +535,9 @@ def drv_data_random(ctx: Ctx, sub: SubCheck):
     # 1120 examples on HyteraIPSCSync and 2 on UDT headers when the variant was drawn with sampled_from)
     def hyp(it, t: Tally):
         kind, variant, part = it
-        ctx.hypothesis(sub.name, _variant_strategy(kind, variant), oracle_data, ctx.pick(150, 3000), tally=t, shard=f"{kind}/{variant}/{part}", record=_record_data(sub.name))
+        ctx.hypothesis(sub.name, _variant_strategy(kind, variant), oracle_data, ctx.pick(150, 3500), tally=t, shard=f"{kind}/{variant}/{part}", record=_record_data(sub.name))
 
-    ctx.shards(hyp, [(kind, variant, part) for part in range(ctx.pick(1, 3)) for (kind, variant) in G.VARIANTS])
+    ctx.shards(hyp, [(kind, variant, part) for part in range(ctx.pick(1, 2)) for (kind, variant) in G.VARIANTS])
 
 
 # ---------------------------------------------------------------------------------------------- voice bursts
@@ -749,7 +749,7 @@ def drv_voice_random(ctx: Ctx, sub: SubCheck):
     def hyp(shard, t: Tally):
         ctx.hypothesis(sub.name, strat, oracle_voice, ctx.pick(300, 8000), tally=t, shard=shard, record=lambda c, tt: _tally_voice(sub.name, c, tt))
 
-    ctx.shards(hyp, list(range(ctx.pick(16, 48))))
+    ctx.shards(hyp, list(range(ctx.pick(16, 32))))
 
 
 SUBCHECKS = [
